@@ -5,6 +5,7 @@ package main
 
 import (
 	"fmt"
+	"go/constant"
 	"go/token"
 	"go/types"
 	"sort"
@@ -260,6 +261,68 @@ func checkUnorderedSources(r *Run, prog *Program, a *Anchors, pfx string) {
 	r.Check(pfx+".unordered-source", "census", "", true, fmt.Sprintf("info: %d functions reachable from the API scanned, %d unordered sources", len(fns), n))
 }
 
+// fewerThanTwoSkips: cond is len(keys) > 1 in one of its spellings (true exactly when there are at least two keys, or more
+// often).
+func fewerThanTwoSkips(cond ssa.Value, src *ssa.Call, cell *ssa.Alloc) bool {
+	bo, ok := cond.(*ssa.BinOp)
+	if !ok {
+		return false
+	}
+	x, y, op := bo.X, bo.Y, bo.Op
+	if _, isC := x.(*ssa.Const); isC {
+		x, y = y, x
+		switch op {
+		case token.LSS:
+			op = token.GTR
+		case token.LEQ:
+			op = token.GEQ
+		case token.GTR:
+			op = token.LSS
+		case token.GEQ:
+			op = token.LEQ
+		}
+	}
+	lc, ok := x.(*ssa.Call)
+	if !ok {
+		return false
+	}
+	if b, isB := lc.Call.Value.(*ssa.Builtin); !isB || b.Name() != "len" || len(lc.Call.Args) != 1 || !sameSeq(lc.Call.Args[0], src, cell) {
+		return false
+	}
+	c, ok := y.(*ssa.Const)
+	if !ok || c.Value == nil {
+		return false
+	}
+	n, exact := constant.Int64Val(c.Value)
+	if !exact {
+		return false
+	}
+	switch op {
+	case token.GTR:
+		return n <= 1
+	case token.GEQ:
+		return n <= 2
+	case token.NEQ:
+		return n == 0 || n == 1
+	}
+	return false
+}
+
+// onlyOrders: the guarded block does nothing but the sort (and what feeds it).
+func onlyOrders(b *ssa.BasicBlock, sc *ssa.Call) bool {
+	for _, ins := range b.Instrs {
+		switch x := ins.(type) {
+		case *ssa.Call:
+			if x != sc {
+				return false
+			}
+		case *ssa.Store, *ssa.MapUpdate, *ssa.Go, *ssa.Defer, *ssa.Send, *ssa.Panic, *ssa.Return:
+			return false
+		}
+	}
+	return true
+}
+
 // classifyKeySlice decides the shape of the use of a MapKeys() result.
 func classifyKeySlice(prog *Program, fn *ssa.Function, src *ssa.Call) (bool, string, string) {
 	// is the slice stored into a cell?
@@ -342,6 +405,28 @@ func classifyKeySlice(prog *Program, fn *ssa.Function, src *ssa.Call) (bool, str
 				if ia, ok := ins.(*ssa.IndexAddr); ok && sameSeq(ia.X, src, cell) {
 					break // read before the sort
 				}
+				if iff, ok := ins.(*ssa.If); ok && len(blk.Succs) == 2 && fewerThanTwoSkips(iff.Cond, src, cell) {
+					// … if len(keys) > 1 { sort } : skipped only for slices that are in order as they are
+					then := blk.Succs[0]
+					if len(then.Preds) == 1 && len(then.Succs) == 1 && then.Succs[0] == blk.Succs[1] {
+						for _, ti := range then.Instrs {
+							c, isCall := ti.(*ssa.Call)
+							if !isCall {
+								continue
+							}
+							name, isSort := isSortCall(c)
+							if !isSort || len(c.Call.Args) == 0 || !sameSeq(c.Call.Args[0], src, cell) || !onlyOrders(then, c) {
+								break
+							}
+							if name == "sort.Slice" || name == "sort.SliceStable" {
+								if ok2, w := lessIsOrderOnSorted(c, cell); !ok2 {
+									return false, "stored-then-sorted attempted: ", w
+								}
+							}
+							return true, "stored, then sorted in place unless there are fewer than two keys (" + name + ") before any read", ""
+						}
+					}
+				}
 			}
 		}
 	}
@@ -350,8 +435,18 @@ func classifyKeySlice(prog *Program, fn *ssa.Function, src *ssa.Call) (bool, str
 		name, _ := isSortCall(sc)
 		okAll := true
 		why := ""
+		// a sort skipped only when there are fewer than two keys orders every slice it is skipped for: the guard's block
+		// stands for the sort's block
+		scBlk := sc.Block()
+		if len(scBlk.Preds) == 1 && len(scBlk.Succs) == 1 {
+			g := scBlk.Preds[0]
+			if iff, ok := g.Instrs[len(g.Instrs)-1].(*ssa.If); ok && g.Succs[0] == scBlk && g.Succs[1] == scBlk.Succs[0] &&
+				fewerThanTwoSkips(iff.Cond, src, cell) && onlyOrders(scBlk, sc) {
+				scBlk = g
+			}
+		}
 		for _, u := range uses {
-			dom := sc.Block().Dominates(u.blk) && sc.Block() != u.blk
+			dom := scBlk.Dominates(u.blk) && scBlk != u.blk
 			if sc.Block() == u.blk {
 				// same block: the sort must come first
 				for _, ins := range u.blk.Instrs {
@@ -370,7 +465,7 @@ func classifyKeySlice(prog *Program, fn *ssa.Function, src *ssa.Call) (bool, str
 			}
 		}
 		// the sort itself must follow the MapKeys on every path (same block or dominated)
-		if !(src.Block().Dominates(sc.Block())) {
+		if !(src.Block().Dominates(scBlk)) {
 			okAll = false
 			why = "the sort is not dominated by the MapKeys() whose result it orders"
 		}
@@ -459,7 +554,7 @@ func consumingLoopOK(prog *Program, fn *ssa.Function, header *ssa.BasicBlock, ma
 			if c, ok := ins.(*ssa.Call); ok {
 				callee := c.Call.StaticCallee()
 				if callee != nil && callee.Pkg != nil && callee.Pkg.Pkg.Path() == "reflect" && callee.Signature.Recv() != nil && callee.Name() != "SetMapIndex" && len(c.Call.Args) > 0 {
-					if mk, ok := c.Call.Args[0].(*ssa.Call); ok && (isReflectFunc(mk.Call.StaticCallee(), "MakeMap") || isReflectFunc(mk.Call.StaticCallee(), "MakeSlice")) {
+					if mk, ok := c.Call.Args[0].(*ssa.Call); ok && (isReflectFunc(mk.Call.StaticCallee(), "MakeMap") || isReflectFunc(mk.Call.StaticCallee(), "MakeMapWithSize") || isReflectFunc(mk.Call.StaticCallee(), "MakeSlice")) {
 						return false, "", "the loop over the keys reads the container it is filling (" + callee.Name() + " at " + prog.pos(c.Pos()) + "): its decisions depend on which entries were visited before"
 					}
 				}
@@ -481,7 +576,7 @@ func consumingLoopOK(prog *Program, fn *ssa.Function, header *ssa.BasicBlock, ma
 				if callee != nil && callee.Pkg != nil && callee.Pkg.Pkg.Path() == "reflect" {
 					switch callee.Name() {
 					case "SetMapIndex":
-						if mk, ok := x.Call.Args[0].(*ssa.Call); !ok || !isReflectFunc(mk.Call.StaticCallee(), "MakeMap") {
+						if mk, ok := x.Call.Args[0].(*ssa.Call); !ok || !(isReflectFunc(mk.Call.StaticCallee(), "MakeMap") || isReflectFunc(mk.Call.StaticCallee(), "MakeMapWithSize")) {
 							return false, "", "SetMapIndex into a map not made in this function"
 						}
 					case "Append", "AppendSlice", "Set", "SetString", "SetInt":
